@@ -676,6 +676,9 @@ func (circuitSuite) Gen(r *rand.Rand, i int) Case {
 	tag("opener-" + opener)
 	tag("closer-" + closer)
 	nops := 1 + r.Intn(40)
+	if r.Intn(25) == 0 {
+		nops = 200 + r.Intn(200) // a long history: state that only goes wrong after it accumulates
+	}
 	id := 1
 	armed := 0
 	if closer == "hystrix" && pt == "" && r.Intn(6) == 0 {
